@@ -171,6 +171,45 @@ theorem sim_assignSub {n : Nat} (hS : SimS n) {K : SCtx} {k : Ctx} {sub : Bool} 
       fun h => h.elim, fun h => absurd h hq⟩
     simp [absEnv, absEnvC, h1, h2]
 
+theorem sim_echoSub {n : Nat} (hS : SimS n) {K : SCtx} {k : Ctx} {sub : Bool} {s : St}
+    (w1 : Word) (p : Prog) (w2 : Word)
+    (hst : Stat K k sub) (hs : supCmd K (.echoSub w1 p w2) = true) (hd : Dyn K k sub s)
+    (hl : LastOk s) (hp : NoPending s) (hx : s.exit = {}) (q : Prop) :
+    Rel (Post K k sub False q s) (run (n+1) (.cmd (.echoSub w1 p w2)) s)
+      (sem (n+1) k (.cmd (.echoSub w1 p w2)) (absEnv s)) := by
+  simp only [supCmd, Bool.and_eq_true, Bool.not_eq_eq_eq_not, Bool.not_true] at hs
+  obtain ⟨⟨hp0, hne⟩, hsup⟩ := hs
+  have hne' := subNe_of (K := K) hne
+  have h0 := sim_subrun hS p [] k.depth hst hne' hp0 hsup hd hl hx
+  have hrun : run (n+1) (.cmd (.echoSub w1 p w2)) s =
+      match foldStmts (fun st => run n (.stmt st)) p (subshellOf s []) with
+      | none => none
+      | some r2 =>
+        some { s with lastExpandExit := { r2.exit with exiting := false }, exit := {},
+                      out := s.out ++ (expandWord s.vars s.lastExit.code w1 ++ (stripNl r2.out ++
+                        (expandWord s.vars s.lastExit.code w2 ++ [10]))) } := by
+    rw [run]; simp only [stop_false_of_exit hx, Bool.false_eq_true, ↓reduceIte]; rfl
+  have hsem : sem (n+1) k (.cmd (.echoSub w1 p w2)) (absEnv s) =
+      match subRun (fun st => sem n { k with depth := k.depth } (.stmt st))
+          (fun a e => sem n { k with depth := k.depth, exitTrap := true } (.trap a) e) p (subEnv (absEnv s) []) with
+      | none => none
+      | some (_, e1) =>
+        some (.norm, ({ absEnv s with
+          out := (absEnv s).out ++ (expandWord (absEnv s).vars (absEnv s).status w1 ++ (stripNl e1.out ++
+            (expandWord (absEnv s).vars (absEnv s).status w2 ++ [10]))), status := 0 } : Env)) := by
+    rw [sem]; rfl
+  rw [hrun, hsem]
+  cases hr : foldStmts (fun st => run n (.stmt st)) p (subshellOf s []) with
+  | none => rw [hr] at h0; rw [SubRel_none h0]; trivial
+  | some r2 =>
+    rw [hr] at h0
+    obtain ⟨e1, he, _, h2, _⟩ := SubRel_some h0
+    rw [he]
+    simp only [Rel, Post]
+    refine ⟨?_, hd.congr rfl rfl rfl rfl rfl rfl rfl rfl, ⟨rfl, rfl, rfl⟩, ⟨rfl, rfl⟩, hp,
+      fun h => h.elim, fun _ hne => by simp at hne⟩
+    simp [absEnv, absEnvC, h2]
+
 theorem sim_call {n : Nat} (hS : SimS n) {K : SCtx} {k : Ctx} {sub : Bool} {s : St} (f : Str)
     (body : Stmt) (hf : lookupFn s.funcs f = some body)
     (hst : Stat K k sub) (hd : Dyn K k sub s) (hl : LastOk s) (hp : NoPending s) (hx : s.exit = {}) :
